@@ -221,6 +221,12 @@ func c04Body(c *core.Ctx) {
 	gen := GenOpts{MaxN: 5, Retries: true, Preconds: true, ContinueOn: true, Failures: true, MaxActive: true, Handlers: true}
 	handle := func(idx int, spec *vexec.CaseSpec, out *vexec.Outcome) {
 		c.Eval(1)
+		if out.StopDropped {
+			// "canceled iff it was stopped before completing": the stop was requested and never acted upon
+			c.Count("obligations", 1)
+			c.Violate(idx, "stop-dropped", fmt.Sprintf("a stop was requested while the run was in progress and had not been acted upon 20 s later; the run is reported %q", out.Status), map[string]any{"case": spec, "trace": TraceSig(out)})
+			return
+		}
 		if out.Inconclusive != "" {
 			c.Inconclusive(fmt.Sprintf("case %d: %s", idx, out.Inconclusive))
 			return
